@@ -79,7 +79,7 @@ def run(chk):
     ParamsDict = w.get("jinns.parameters._params", "ParamsDict")
     chk.rule("C02.R1", "residual polynomial inferred through evaluate() (heterogeneity wrapper -> _evaluate -> equation) "
                        "equals the documented equation, including Tmax placement and parameter / key roles", floor=11)
-    thorough = chk.tier == "thorough"
+    thorough = chk.full
 
     def cls(name):
         try:
